@@ -78,6 +78,11 @@ def run(rep, tier):
         from . import c04
         c04.clause_d(facts, rep)   # numbers keep the value the text denotes only if dropped digits are remembered
         c04.clause_f(facts, rep)   # ... and an integer that fits uint64 is stored as an integer
+        # 'string values equal to the decoded bytes': escape tables, surrogate handling and the UTF-8 encoder (shared with C05)
+        from . import c05
+        ok = c05.clause_a(facts, rep)
+        c05.clause_b(facts, rep, ok)
+        c05.clause_c(facts, rep, tier)
     rep.extra['traces_validated_against_impl'] = 0
     rep.trust('clang 14 front end', 'hand-written RFC 8259 reference transducer (sv/e6_vpa.py ref_step)',
               'contract of scalar sub-parsers (one well-formed lexeme of their kind -> their event)')
